@@ -53,6 +53,33 @@ func GetGettyClientHandlerInstance() *gettyClientHandler {
 	return clientHandler
 }
 
+var (
+	sessionOpenHooks     []func(session getty.Session)
+	sessionOpenHooksLock sync.RWMutex
+)
+
+// RegisterSessionOpenHook registers f to run for every session that is opened, after the transaction
+// manager has been announced on it (the resource managers use it to announce their resources to a
+// coordinator connection that replaces a lost one)
+func RegisterSessionOpenHook(f func(session getty.Session)) {
+	sessionOpenHooksLock.Lock()
+	defer sessionOpenHooksLock.Unlock()
+	sessionOpenHooks = append(sessionOpenHooks, f)
+}
+
+// SendOnewayOnSession sends body as a one-way request on the given session
+func SendOnewayOnSession(session getty.Session, body interface{}) error {
+	client := GetGettyRemotingClient()
+	rpcMessage := message.RpcMessage{
+		ID:         int32(client.idGenerator.Inc()),
+		Type:       message.GettyRequestTypeRequestOneway,
+		Codec:      byte(codec.CodecTypeSeata),
+		Compressor: 0,
+		Body:       body,
+	}
+	return client.gettyRemoting.SendAsync(rpcMessage, session, client.asyncCallback)
+}
+
 func (g *gettyClientHandler) OnOpen(session getty.Session) error {
 	log.Infof("Open new getty session ")
 	sessionManager.registerSession(session)
@@ -78,6 +105,12 @@ func (g *gettyClientHandler) OnOpen(session getty.Session) error {
 			log.Errorf("OnOpen error: {%#v}", err.Error())
 			sessionManager.releaseSession(session)
 			return
+		}
+		sessionOpenHooksLock.RLock()
+		hooks := append([]func(getty.Session){}, sessionOpenHooks...)
+		sessionOpenHooksLock.RUnlock()
+		for _, hook := range hooks {
+			hook(session)
 		}
 	}()
 
